@@ -623,6 +623,10 @@ m("overrun-sorted-struct-path", "TAB-OVERRUN", ["C03", "C06"], "break", BS,
   "the budget is measured before the sorted struct's length field is read",
   more=[("\tlengthIsNibble := true\n", "\tpos := b.pos\n\trem := b.remaining()\n\tlengthIsNibble := true\n")])
 
+m("emptycopy-lob-defensive-copy", "NIL-EMPTYCOPY", ["C16", "C17"], "break", UM,
+  "func (d *Decoder) decodeLobTo(v reflect.Value) error {\n\tval, err := d.r.ByteValue()\n\tif err != nil {\n\t\treturn err\n\t}\n", "func (d *Decoder) decodeLobTo(v reflect.Value) error {\n\tval, err := d.r.ByteValue()\n\tif err != nil {\n\t\treturn err\n\t}\n\tval = append([]byte(nil), val...)\n", "append(nil", True,
+  "an empty blob is decoded as a nil slice")
+
 os.makedirs(os.path.dirname(os.path.abspath(__file__)), exist_ok=True)
 with open(os.path.join(os.path.dirname(os.path.abspath(__file__)), "core.json"), "w") as f:
     json.dump(M, f, indent=1)
